@@ -15,7 +15,7 @@ _EX = ("reply status symbolic 200..599, Connection header %s, request keep-alive
        "marked 'stored whole' only if the framing says complete; complete => whole and no failure; EOF before the end => failure reported, never whole; read error => failure; connection "
        "pooled only after a complete message that ended exactly where reading stopped, with keep-alive on both sides and the request completely sent; completion ends the job and closes or pools the connection")
 SPEC = dict(
-    harness="C01_relay.cc", units=_U, unit_flags={"compat/xstring.cc": ["-Dxstrdup=vf_unused_squid_xstrdup"]},
+    harness="C01_relay.cc", units=_U, defines=["C01_SHOW_CANDIDATES=1"], unit_flags={"compat/xstring.cc": ["-Dxstrdup=vf_unused_squid_xstrdup"]},
     scope="kernel",
     scope_note="kernel decided: (A) from the parsed reply header on, HttpStateData::readReply/processReply/processReplyBody/writeReplyBody/decodeAndWriteReplyBody (real TeChunkedParser)/"
                "truncateVirginBody/persistentConnStatus/statusIfComplete/markPrematureReplyBodyEofFailure and Client::addVirginReplyBody/storeReplyBody/serverComplete/completeForwarding, "
